@@ -451,6 +451,11 @@ func runPipeline(raw json.RawMessage) (interface{}, error) {
 		if err := settle("the final state after the faults stopped"); err != nil {
 			return nil, err
 		}
+	} else if err := awaitIdle(); err != nil {
+		// "clean" is learnt when the monitor comes back after handing over a text built without a failing lookup:
+		// the table loop has taken that text but may still be building its table (in polling mode, or after a
+		// blocking query timed out, this happens at any moment) - wait until it is parked again before looking
+		return nil, err
 	}
 	table, err := dump()
 	if err != nil {
